@@ -87,6 +87,13 @@ def finish(ctx, t0, assumptions, level='other', selftest=None):
     """Write evidence, print protocol lines, return exit code."""
     counts = ctx.check_floors()
     known = load_known(ctx.prop)
+    global EVIDENCE_DIR
+    if os.environ.get('NBSA_EVIDENCE_DIR'):
+        EVIDENCE_DIR = os.environ['NBSA_EVIDENCE_DIR']
+    elif os.path.realpath(ctx.root) != '/repo':
+        # analysing a scratch copy (self-test, seeded change): never touch the committed evidence
+        import tempfile
+        EVIDENCE_DIR = os.path.join(tempfile.gettempdir(), 'nbsa-evidence-%d' % os.getuid())
     new, listed = [], []
     for f in ctx.findings:
         k = match_known(f, known)
